@@ -63,6 +63,9 @@ struct Diverge;
 
 pub struct Interp<'a> {
     pub env: &'a BDDEnv<usize>,
+    /// build every literal operand in an environment of its own (operands from different
+    /// environments meet in one operation)
+    pub xenv: bool,
 }
 
 fn usz(x: &Sx) -> Result<usize, String> {
@@ -91,11 +94,21 @@ impl<'a> Interp<'a> {
                 let a = &v[1..];
                 let e1 = |i: usize| self.eval(&a[i], cur);
                 match (h, a.len()) {
-                    ("N", 3) => rebuild_lit(env, x),
+                    ("N", 3) => {
+                        if self.xenv {
+                            rebuild_lit(&BDDEnv::new(), x)
+                        } else {
+                            rebuild_lit(env, x)
+                        }
+                    }
                     ("tt", 2) => {
                         let vars: Vec<usize> = a[0].list().ok_or("vars")?.iter().map(usz).collect::<Result<_, _>>()?;
                         let tt: u128 = a[1].atom().ok_or("tt")?.parse().map_err(|_| "tt")?;
-                        Ok(build_tt(env, &vars, tt, 0, 0))
+                        if self.xenv {
+                            Ok(build_tt(&BDDEnv::new(), &vars, tt, 0, 0))
+                        } else {
+                            Ok(build_tt(env, &vars, tt, 0, 0))
+                        }
                     }
                     ("var", 1) => Ok(env.var(usz(&a[0])?)),
                     ("const", 1) => Ok(env.mk_const(a[0].atom() == Some("1"))),
@@ -168,7 +181,11 @@ impl<'a> Interp<'a> {
 
 /// run one case on the real library; every case gets a fresh environment unless `env` is given
 pub fn run_case(env: &BDDEnv<usize>, x: &Sx) -> String {
-    let it = Interp { env };
+    run_case_x(env, x, false)
+}
+
+pub fn run_case_x(env: &BDDEnv<usize>, x: &Sx, xenv: bool) -> String {
+    let it = Interp { env, xenv };
     if x.head() == Some("infer") {
         let a = x.list().unwrap();
         let r = catch_unwind(AssertUnwindSafe(|| {
@@ -230,6 +247,13 @@ impl<'a> Gen<'a> {
         let r = if self.n % self.fresh_every == 0 {
             let env = BDDEnv::new();
             run_case(&env, &x)
+        } else if self.n % 5 == 0 && !x.show().contains("clean") {
+            // literal operands come from environments of their own (not for `clean`, whose
+            // contract is that its argument already lives in this environment's table)
+            if self.shared.size() > 200_000 {
+                self.shared = BDDEnv::new();
+            }
+            run_case_x(&self.shared, &x, true)
         } else {
             if self.shared.size() > 200_000 {
                 self.shared = BDDEnv::new();
@@ -242,7 +266,7 @@ impl<'a> Gen<'a> {
     fn case_checked(&mut self, x: Sx) {
         self.n += 1;
         let env = BDDEnv::new();
-        let it = Interp { env: &env };
+        let it = Interp { env: &env, xenv: false };
         let args: Vec<Sx> = x.list().map(|v| v[1..].to_vec()).unwrap_or_default();
         let ops: Vec<Option<B>> = args.iter().map(|a| if a.head() == Some("tt") { it.eval(a, &None).ok() } else { None }).collect();
         let before: Vec<Option<String>> = ops.iter().map(|o| o.as_ref().map(|b| bdd_str(b))).collect();
